@@ -18,3 +18,11 @@ func ZZSocketPipes(s mangos.Socket) int {
 	defer so.pipes.lock.Unlock()
 	return len(so.pipes.pipes)
 }
+
+// ZZIDInUse reports whether the pipe id is currently reserved in the allocator.
+func ZZIDInUse(id uint32) bool {
+	pipeIDs.lock.Lock()
+	defer pipeIDs.lock.Unlock()
+	_, ok := pipeIDs.used[id]
+	return ok
+}
